@@ -181,12 +181,7 @@ theorem wp_arChecks (e : Ext) (nparams : Int) (pnan : Nat → Bool) (bad : Bool)
     wp (arChecks e (constExt 10) nparams pnan bad) (fun r => r = some () → 0 < nparams ∧ nparams ≤ 10) := by
   unfold arChecks
   wp_run
-  · intro h; cases h
-  · refine wp_forLoop (fun _ _ => True) _ _ _ trivial ?_ ?_
-    · intro j s _ _ _
-      wp_run
-    · intro x _
-      cases x <;> wp_run
+  all_goals (intro h; cases h)
 
 /-! ### integer grid core -/
 open HydroVerif.C07
